@@ -1,6 +1,7 @@
 package main
 
 import (
+	"strings"
 	"context"
 	"math/rand/v2"
 	"net/http"
@@ -58,6 +59,9 @@ func connPeer(src string, id int) string {
 	host := sfmt("10.9.%d.%d", k/250, k%250+1)
 	if k < len(connPeers) {
 		host = connPeers[k]
+	}
+	if id%3 == 0 && !strings.Contains(host, ":") {
+		return host // a listener that reports the bare address (no port): still the same peer
 	}
 	return sfmt("%s:%d", host, 1024+(id*7919)%60000)
 }
